@@ -15,7 +15,7 @@ sys.path.insert(0, os.path.dirname(os.path.dirname(os.path.abspath(__file__))))
 
 from pyvc.contracts import Registry  # noqa: E402
 from pyvc.frontend import Repo  # noqa: E402
-from pyvc.verify import ERROR, PROVED, REFUTED, UNKNOWN, OblResult, Verifier, expand_keys, unverified_impls  # noqa: E402
+from pyvc.verify import ERROR, PROVED, REFUTED, UNKNOWN, OblResult, Verifier, closure_keys, expand_keys, unverified_impls  # noqa: E402
 from runner.props import PROPS  # noqa: E402
 from spec.vocab import Spec  # noqa: E402
 
@@ -158,6 +158,32 @@ def main() -> int:
         for key, res, meta in pool.imap_unordered(_work, keys):
             all_results.extend(res)
             metas[key] = meta
+
+    # ---- dependency closure (depth 1): a caller is checked against the callee's contract, so every function whose
+    # contract this property's own functions apply at a call site / attribute read is verified in this check too.
+    # Callees that carry an open known finding or a bounded stand-in are verified under their own property only
+    # (listed in the evidence); deeper levels are covered by the checks of the properties that own those functions.
+    closure_added: list[str] = []
+    closure_skipped: list[str] = []
+    if not a.only and cfg.get("closure", True):
+        used = sorted({u for m in metas.values() for u in m.get("contracts_used", [])})
+        sp0 = os.path.join(VERIF, "BOUNDED_STANDINS.json")
+        special = [o.split("/")[0] for f in load_known() if f.get("status", "open") == "open" for o in f["obligations"]]
+        special += [o.split("/")[0] for b in (json.load(open(sp0))["standins"] if os.path.exists(sp0) else []) for o in b["obligations"]]
+        for k2 in closure_keys(repo, reg, used):
+            if k2 in keys:
+                continue
+            if k2 in special or k2 in cfg.get("closure_exclude", ()):
+                closure_skipped.append(k2)
+                continue
+            closure_added.append(k2)
+        if closure_added:
+            saved_only = _V.only_clauses
+            with ctx.Pool(max(1, min(a.jobs, len(closure_added)))) as pool:
+                for key, res, meta in pool.imap_unordered(_work, closure_added):
+                    all_results.extend(res)
+                    metas[key] = meta
+            _V.only_clauses = saved_only
 
     # spec-level lemma obligations (no code involved): discharged by z3 on every run
     import z3 as _z3
@@ -357,6 +383,8 @@ def main() -> int:
             "checker_cmd": f"./check {pid} --tier {a.tier}",
             "trusted_base": ["pyvc (this repository)", "z3 5.1 (python3-vt)", "CPython semantics as stated in DESIGN.md 2.2"],
             "functions_under_contract": funcs,
+            "dependency_closure": {"depth": 1, "callees_verified_here": sorted(closure_added),
+                                   "callees_verified_under_their_own_property_only": sorted(closure_skipped)},
             "functions_not_verified": skipped_funcs,
             "function_source_hashes": {k: m.get("source_hash") for k, m in metas.items()},
             "paths_explored": sum(m.get("paths", 0) for m in metas.values()),
